@@ -3,7 +3,11 @@
    The statement as an executable predicate over (input, observation of the implementation). *)
 From TT Require Import Lib.Base Gen.Handlers Model.Run Spec.Run.
 
-Record input := { i_prog : prog; i_flavour : flavour }.
+(* i_prev: what the SAME TestCase instance did in its earlier runs, oldest first (a runner that runs a
+   case again after an interrupted attempt, an --until-failure loop, an interactive session): the
+   stages are scripted per run.  The observation is that of the last run, the one of i_prog; the
+   statement speaks about every single run, whatever the instance went through before. *)
+Record input := { i_prev : list prog; i_prog : prog; i_flavour : flavour }.
 
 (* what the result object saw: calls of startTest / an outcome method / stopTest, in order *)
 Inductive ev := Start | Out (o : outcome) | Stop.
@@ -38,8 +42,21 @@ Definition derives_from_Exception (e : exc) : bool := isinstance e CException.
 (* the inputs of the quantifier: the handlers the user has put in front of exception_handlers -
    before the run or while it runs (Spec.Run.user_handlers) - are for Exception-derived classes
    (handlers for other classes belong to C03), exceptions are well formed *)
+(* The first program the instance ran: the handlers it was constructed with are its p_handlers. *)
+Definition first_prog (i : input) : prog := hd (i_prog i) (i_prev i).
+(* the user's entries at the front of exception_handlers when the observed run starts: the list is
+   not reset between runs, each run's insertions go in front *)
+Definition handlers_before (i : input) : list (cls * outcome) :=
+  fold_left (fun u p => rev (inserted p) ++ u) (i_prev i) (p_handlers (first_prog i)).
+(* ... and when its outcome is chosen *)
+Definition handlers_at_outcome (i : input) : list (cls * outcome) := rev (inserted (i_prog i)) ++ handlers_before i.
+(* the decorators belong to the class / the method, not to a run *)
+Definition same_decorators (p q : prog) : bool :=
+  option_eqb Nat.eqb (p_skip p) (p_skip q) && Bool.eqb (p_xfail p) (p_xfail q).
 Definition wf (i : input) : bool :=
-  wf_prog (i_prog i) && forallb (fun co => subclass (fst co) CException) (user_handlers (i_prog i)).
+  wf_prog (i_prog i) && forallb wf_prog (i_prev i)
+  && forallb (same_decorators (i_prog i)) (i_prev i)
+  && forallb (fun co => subclass (fst co) CException) (handlers_at_outcome i).
 
 (* startTest, exactly one outcome, stopTest (a StreamResult gets no event for stopTest) *)
 Definition bracket (f : flavour) (evs : list ev) : option outcome :=
